@@ -8,6 +8,9 @@
   inside the text* (lexer.rs:18, :87-:89).  This file mirrors exactly that; `nextTokenWith false` is the
   lexer with the proposed fix (fixes/C13-nul.patch: end of input is decided by position).
 
+  Line numbers refer to lexer.rs at 61b7940 (before the fix).  Once the fix is in the tree,
+  `nextTokenWith false` / `lexAllFixed` is the lexer of the tree; the driver accepts either and tags which matched.
+
   Core Lean only (linked into the native driver).
 -/
 
